@@ -154,13 +154,66 @@ def finish(ctx, explanation, level_note=""):
     return 0
 
 
+# ---------------------------------------------------------------------------- time budgets (a normal form that explodes must end as UNKNOWN, not as a hang)
+_DEADLINE = [None]
+_LOCAL = []          # stack of (deadline, what)
+
+
+def _arm():
+    import signal, time
+    now = time.monotonic()
+    cands = [d for d in [_DEADLINE[0]] + [d_ for d_, _ in _LOCAL] if d is not None]
+    if not cands: signal.setitimer(signal.ITIMER_REAL, 0); return
+    signal.setitimer(signal.ITIMER_REAL, max(0.05, min(cands) - now))
+
+
+def _on_alarm(sig, frm):
+    import time
+    from .symalg import Unknown
+    now = time.monotonic()
+    if _DEADLINE[0] is not None and now >= _DEADLINE[0] - 0.01:
+        _DEADLINE[0] = None; _arm()
+        raise AnalysisError("analysis time budget exceeded (a normal form or a path enumeration grew beyond what this check can handle)")
+    for i in range(len(_LOCAL) - 1, -1, -1):
+        if now >= _LOCAL[i][0] - 0.01:
+            what = _LOCAL[i][1]
+            del _LOCAL[i:]
+            _arm()
+            raise Unknown(f"time budget exceeded while analysing {what}")
+    _arm()
+
+
+class limit:
+    """with limit(seconds, what): ... raises symalg.Unknown inside the block when it runs longer (main thread only; no-op elsewhere)."""
+    def __init__(s, seconds, what): s.seconds = seconds; s.what = what; s.on = False
+
+    def __enter__(s):
+        import threading, time
+        if threading.current_thread() is threading.main_thread() and _DEADLINE[0] is not None:
+            _LOCAL.append((time.monotonic() + s.seconds, s.what)); s.on = True; s.depth = len(_LOCAL); _arm()
+        return s
+
+    def __exit__(s, *a):
+        if s.on:
+            del _LOCAL[s.depth - 1:]
+            _arm()
+        return False
+
+
 def run(pid, fn, tier, seed, repo_root):
     """top-level wrapper: tracebacks become exit 2."""
     from .model import Repo
+    import signal, time
+    try:
+        signal.signal(signal.SIGALRM, _on_alarm)
+        _DEADLINE[0] = time.monotonic() + float(os.environ.get("VERIF_BUDGET_S", "1500" if tier == "quick" else "3000")); _arm()
+    except Exception:
+        _DEADLINE[0] = None
     try:
         repo = Repo(repo_root)
         ctx = Ctx(pid, tier, seed, repo)
         expl = fn(ctx)
+        _DEADLINE[0] = None; del _LOCAL[:]; _arm()
         if tier == "thorough" and not os.environ.get("VERIF_NO_SELFTEST"):
             from . import selftest
             try: selftest.run(ctx)
